@@ -119,14 +119,18 @@ func (l *LinkedList) LRange(start, end int64) [][]byte {
 func (l *LinkedList) forEach(start, end int64, fn func(v []byte)) {
 	currentNode := l.head
 	var index int64 = 0
-	if start != 0 && start >= end {
-		return
-	}
+	// negative indexes count from the tail; only then is an empty window known
 	if start < 0 {
 		start = l.size() + start
+		if start < 0 {
+			start = 0
+		}
 	}
 	if end < 0 {
 		end = l.size() + end
+	}
+	if start > end {
+		return
 	}
 	for currentNode != nil {
 		if index >= start && index <= end {
@@ -301,6 +305,9 @@ func (l *LinkedList) lRevRem(count int64, value []byte) int64 {
 
 // LSet sets the list element at index to value
 func (l *LinkedList) LSet(index int64, value []byte) bool {
+	if index < 0 {
+		index = l.length + index
+	}
 	currentNode := l.head
 	var currentIndex int64 = 0
 	for currentNode != nil {
@@ -321,6 +328,9 @@ func (l *LinkedList) LSet(index int64, value []byte) bool {
 func (l *LinkedList) LTrim(start, end int64) {
 	currentNode := l.head
 	var currentIndex int64 = 0
+	if start < 0 {
+		start = l.size() + start
+	}
 	if end < 0 {
 		end = l.size() + end
 	}
